@@ -29,7 +29,7 @@ Proof.
   unfold set_radius in E. destruct (nthS l k) as [s0|] eqn:ES; [|discriminate].
   destruct (nthS_some _ _ _ ES) as (Hk & Hs0).
   destruct (Z.eqb_spec j k) as [->|Hne].
-  - rewrite Hs0. destruct (s_kind s0); reflexivity.
+  - rewrite Hs0. unfold set_radius_fun. cbn [isinf_ ROps]. destruct (s_kind s0); reflexivity.
   - destruct (nth_error (surfs l) (Z.to_nat j)); reflexivity.
 Qed.
 
